@@ -132,8 +132,11 @@ def check(plan, results):
                 elif op in ("rmdir", "rename", "unlink"):
                     if named:
                         v("removed-while-named", li, f"{path}: {op} while the index still names the segment", step=cur_step, label=lab)
+                    # the directory is gone: a later directory under the same label is a new segment
                     S.dirs[sh].pop(lab, None)
                     S.files.pop(key, None)
+                    S.published.pop(key, None)
+                    S.snap_hash.pop(key, None)
                 continue
             # operation on a file inside a segment directory
             mutating = op in ("write", "truncate", "unlink", "rename", "link") or (
@@ -142,11 +145,12 @@ def check(plan, results):
                 continue
             if named:
                 v("mutated-published", li, f"{path}: {op} while the segment is named by the index", step=cur_step, label=lab)
-            elif lab in S.dirs[sh] and S.dirs[sh][lab] < li and key not in touched_this_life:
+            elif op != "unlink" and lab in S.dirs[sh] and S.dirs[sh][lab] < li and key not in touched_this_life:
                 v("dir-reuse", li, f"{path}: {op} into segment directory {lab} that already existed from lifetime {S.dirs[sh][lab]} (not a fresh id)",
                   step=cur_step, after_crash=crashed_prev, label=lab)
-            touched_this_life.add(key)
-            if lab not in S.dirs[sh]:
+            if op != "unlink":
+                touched_this_life.add(key)
+            if lab not in S.dirs[sh] and op != "unlink":
                 S.dirs[sh][lab] = li
             if op == "write":
                 S.files[key][rest] = S.files[key].get(rest, 0) + (e.get("short", e.get("n", 0)) if not e.get("errno") else 0)
@@ -156,6 +160,9 @@ def check(plan, results):
                 S.files[key].setdefault(rest, 0)
             elif op == "unlink":
                 S.files[key].pop(rest, None)
+                if not named:
+                    # clean-up of an unpublished left-over (start-up orphan removal): forget what was there
+                    S.published.pop(key, None)
         crashed_prev = code == 137
     return viol
 
